@@ -543,7 +543,15 @@ fn short(m: &Integrator) -> &'static str {
 }
 
 /// call `Integrator::integrate` on the real code, counting integrand evaluations
+/// A wall-clock cap must not turn machine load into an alarm.  Only Gauss-Kronrod, whose slowness on smooth 2-D integrands
+/// is the recorded finding D4d, keeps the short cap of the tier; every other method needs milliseconds to a few seconds
+/// for the cases of this family and gets a cap that no load reaches (a genuine hang is still reported, after 120 s).
+fn load_proof(cap: Duration, m: &Integrator) -> Duration {
+  if matches!(m, Integrator::GaussKonrod { .. }) { cap } else { cap.max(Duration::from_secs(120)) }
+}
+
 fn call1(cap: Duration, m: Integrator, f: &I1, a: f64, b: f64) -> (Res, f64, usize) {
+  let cap = load_proof(cap, &m);
   let cnt = Arc::new(AtomicUsize::new(0));
   let c2 = cnt.clone();
   let f0 = f.clone();
@@ -566,6 +574,7 @@ fn call1_fn<G>(cap: Duration, m: Integrator, g: G, a: f64, b: f64) -> (Res, f64)
 where
   G: Fn(f64) -> C + Send + Sync + 'static,
 {
+  let cap = load_proof(cap, &m);
   timed(cap, move || m.integrate(g, a, b))
 }
 
@@ -574,6 +583,7 @@ where
 static OUTER_EVALS: AtomicUsize = AtomicUsize::new(0);
 
 fn call2(cap: Duration, m: Integrator, f: &I2, ax: f64, bx: f64, ay: f64, by: f64) -> (Res, f64, usize) {
+  let cap = load_proof(cap, &m);
   let cnt = Arc::new(AtomicUsize::new(0));
   let c2 = cnt.clone();
   let f0 = f.clone();
@@ -1502,6 +1512,7 @@ fn s_history(ctx: &mut Ctx, cap: Duration) {
 
 /// the same method through the free functions `simpson` / `simpson_adaptive` (1-D) on the worker thread
 fn call1_free(cap: Duration, m: Integrator, f: &I1, a: f64, b: f64) -> (Res, f64, usize) {
+  let cap = load_proof(cap, &m);
   let cnt = Arc::new(AtomicUsize::new(0));
   let c2 = cnt.clone();
   let f = f.clone();
